@@ -13,7 +13,7 @@ from soundevent.evaluation import compute_affinity, match_geometries
 from soundevent.geometry import geometry_to_shapely
 from vt.enc import limbs, fhex
 from vt.geom import build, TIME_UNITS, FREQ_UNIT
-from checks.c06 import _val, _rand_coords, _mk, KINDS, _NONFINITE
+from checks.c06 import _val, _rand_coords, _mk, KINDS, _NONFINITE, provenance
 
 PROPERTY = "C07"
 TRACE = "T_Matching"
@@ -49,11 +49,15 @@ def _idx(i):
     return [] if i is None else [int(i) + 1]
 
 
-def _run(src, tgt, tb, fb):
+def _run(src, tgt, sp, tp, make, far, tb, fb):
+    """src, tgt: geometry records; sp, tp: where each object comes from (checks.c06.provenance); the reference
+    affinities are computed on equal geometries constructed afresh."""
+    objs = [[provenance(make, r, p, far * (k + 1)) for k, (r, p) in enumerate(zip(recs, provs))]
+            for recs, provs in ((src, sp), (tgt, tp))]
     try:
         with warnings.catch_warnings():
             warnings.simplefilter("ignore")
-            ms = list(match_geometries(src, tgt, time_buffer=tb, freq_buffer=fb))
+            ms = list(match_geometries(objs[0], objs[1], time_buffer=tb, freq_buffer=fb))
         m = []
         for s, t, a in ms:
             a = float(a)
@@ -61,8 +65,12 @@ def _run(src, tgt, tb, fb):
         raised = ""
     except Exception as ex:  # an observation
         m, raised = [], type(ex).__name__
-    aff = [[_val(compute_affinity, a, b, tb, fb) for b in tgt] for a in src]
+    aff = [[_val(compute_affinity, make(a), make(b), tb, fb) for b in tgt] for a in src]
     return {"raised": raised, "m": m, "aff": aff}
+
+
+TWIN_KINDS = [("TimeInterval", "Point"), ("LineString", "MultiPoint"), ("Polygon", "MultiLineString")]
+_make_real = lambda r: _mk(r["type"], r["coordinates"])
 
 
 def _random(case):
@@ -72,29 +80,52 @@ def _random(case):
     def one(kind):
         for _ in range(50):
             a0 = rng.uniform(0.0, 2.5)                  # a narrow window and band: overlaps are frequent
-            g = _mk(kind, _rand_coords(rng, kind, a0, a0 + rng.uniform(0.3, 3.0), 1000.0, 4000.0))
-            if geometry_to_shapely(g).is_valid:
-                return g
+            r = {"type": kind, "coordinates": _rand_coords(rng, kind, a0, a0 + rng.uniform(0.3, 3.0), 1000.0, 4000.0)}
+            if geometry_to_shapely(_make_real(r)).is_valid:
+                return r
         raise RuntimeError("no valid random geometry")
+
     def flat(kind):                                  # a zero-extent geometry of a kind that is never buffered
         t = rng.uniform(0.0, 4.0)
         if kind == "BoundingBox":
-            return _mk(kind, [t, 1000.0, t, 3000.0])
-        return _mk("TimeInterval", [t, t])
-    src = [one(k) for k in case["ks"]]
-    tgt = [one(k) for k in case["kt"]]
-    for lst, kinds, flags in ((src, case["ks"], case["deg"][0]), (tgt, case["kt"], case["deg"][1])):
+            return {"type": kind, "coordinates": [t, 1000.0, t, 3000.0]}
+        return {"type": "TimeInterval", "coordinates": [t, t]}
+
+    def twins(k1, k2):                               # two kinds, one coordinate literal
+        for _ in range(50):
+            a0 = rng.uniform(0.0, 2.5)
+            if k1 == "Polygon":
+                pts = _rand_coords(rng, "LineString", a0, a0 + rng.uniform(0.5, 3.0), 1000.0, 4000.0)
+                if len(pts) < 3:
+                    continue
+                c = [pts]
+            else:
+                c = _rand_coords(rng, k1, a0, a0 + rng.uniform(0.3, 3.0), 1000.0, 4000.0)
+            r1, r2 = {"type": k1, "coordinates": c}, {"type": k2, "coordinates": c}
+            try:
+                if all(geometry_to_shapely(_make_real(r)).is_valid for r in (r1, r2)):
+                    return r1, r2
+            except Exception:
+                pass
+        raise RuntimeError("no valid twin geometries")
+    lists = [[one(k) for k in case["ks"]], [one(k) for k in case["kt"]]]
+    for lst, kinds, flags in ((lists[0], case["ks"], case["deg"][0]), (lists[1], case["kt"], case["deg"][1])):
         for i in flags:
             lst[i - 1] = flat(kinds[i - 1])
-    if case["dup"] and src and tgt:                  # identical geometries on both sides: ties and affinities of 1
-        tgt[0] = src[-1]
-    return {"runs": [_run(src, tgt, tb, fb)]}
+    if case["dup"] and lists[0] and lists[1]:        # equal geometries on both sides: ties and affinities of 1
+        lists[1][0] = lists[0][-1]
+    for sa, ia, sb, ib in case["tw"]:
+        kinds = (case["ks"], case["kt"])
+        lists[sa][ia - 1], lists[sb][ib - 1] = twins(kinds[sa][ia - 1], kinds[sb][ib - 1])
+    return {"runs": [_run(lists[0], lists[1], case["sp"], case["tp"], _make_real, 3.0, tb, fb)]}
 
 
 def execute(case):
     if case["kind"] == "lat":
-        return {"runs": [_run([build(g, tu) for g in case["src"]], [build(g, tu) for g in case["tgt"]], 0, 0)
+        return {"runs": [_run(case["src"], case["tgt"], case["sp"], case["tp"], (lambda r, tu=tu: build(r, tu)), 5, 0, 0)
                          for tu in TIME_UNITS]}
+    if case["kind"] == "twin":                       # unit 1 s / 1 Hz: the literals of the two kinds stay equal
+        return {"runs": [_run(case["src"], case["tgt"], case["sp"], case["tp"], (lambda r: build(r, 1.0, 1.0)), 5, 0.25, 0.5)]}
     return _random(case)
 
 
@@ -110,8 +141,24 @@ def random_cases(rng, tier):
                     if (i == 0 and rng.random() < 0.8) or rng.random() < 0.15:
                         kinds[i] = rng.choice(["TimeInterval", "BoundingBox"])
                         deg[side].append(i + 1)
+        tw = []
+        if not (deg[0] or deg[1]) and len(ks) + len(kt) >= 2 and rng.random() < 0.3:
+            # two geometries of different kinds with the same coordinate literal, in one list or across the lists
+            slots = [(0, i + 1) for i in range(len(ks))] + [(1, i + 1) for i in range(len(kt))]
+            (sa, ia), (sb, ib) = rng.sample(slots, 2)
+            k1, k2 = rng.choice(TWIN_KINDS)
+            if rng.random() < 0.5:
+                k1, k2 = k2, k1
+            (ks, kt)[sa][ia - 1], (ks, kt)[sb][ib - 1] = k1, k2
+            if k1 in ("Polygon", "MultiLineString"):         # binder: the Polygon side drives the generation
+                if k1 != "Polygon":
+                    sa, ia, sb, ib = sb, ib, sa, ia
+            elif k1 in ("Point", "MultiPoint"):
+                sa, ia, sb, ib = sb, ib, sa, ia
+            tw = [[sa, ia, sb, ib]]
         yield {"kind": "rnd", "seed": rng.randrange(1, 2**31 - 1), "ks": ks, "kt": kt,
-               "dup": rng.random() < 0.3 and not (deg[0] or deg[1]), "deg": deg}
+               "dup": rng.random() < 0.3 and not (deg[0] or deg[1] or tw), "deg": deg, "tw": tw,
+               "sp": [rng.choice([0, 0, 1, 2, 3]) for _ in ks], "tp": [rng.choice([0, 0, 1, 2, 3]) for _ in kt]}
 
 
 def nontrivial(o):
